@@ -155,10 +155,11 @@ Proof.
     + intros n Hn. rewrite lookup_delete_ne by lia. apply B. lia.
 Qed.
 
-(** [a] heights are done; [hdone]: the hash key of height [a] is deleted (or buffered) already *)
+(** [a] heights are done; [hdone]: the delete of the hash key of height [a] is buffered already
+    (in the write batch of the pass, or in the batch of its own that deleteKeys commits next) *)
 Definition prog (ctxf : bool) (x : st) (wb : wop) (a : N) (hdone : bool) : Prop :=
   if ctxf then gone x T T /\ wb = dels a ++ (if hdone then [WDelH (h_id (c a))] else [])
-  else gone x a (if hdone then a + 1 else a) /\ wb = [].
+  else gone x a a /\ wb = [].
 
 Definition snap_ok (ctxf : bool) (snap : gmap N N) : Prop :=
   ctxf = true -> forall n, low n -> snap !! n = Some (h_id (c n)).
@@ -228,15 +229,7 @@ Proof.
     destruct D as (Et & Hc & Sn & -> & P). unfold prog in P.
     destruct ctxf; destruct P as [G ->]; injection St as <- <- <-.
     + rewrite app_nil_r. split_and!; auto; cbn; split_and!; auto; unfold prog; auto.
-    + split_and!; auto.
-      * apply sim_write_del; auto; repeat constructor; cbn; exists cur; auto.
-      * cbn [DInv]. rewrite (proj1 (proj2 (proj2 (proj2 (write_frame x [WDelH (h_id (c cur))]))))). split_and!; auto.
-        unfold prog. split; auto. destruct G as (G1 & G2 & G3).
-        destruct (write_disk x [WDelH (h_id (c cur))]) as (W1 & W2 & _).
-        split_and!; intros n Hn Hl; rewrite ?W1, ?W2; cbn [fold_left apply1 set_disk d_hdr d_idx]; auto.
-        destruct (N.eq_dec n cur) as [->|Hne]; [apply lookup_delete|].
-        rewrite lookup_delete_ne; [apply G3; auto; lia|].
-        intros Eid. apply c_inj in Eid; [congruence|exact (low_inr T to HT Hto Hlt _ Hc)|exact (low_inr T to HT Hto Hlt _ Hn)].
+    + split_and!; auto; cbn; split_and!; auto; unfold prog; auto.
   - (* KDelI *)
     destruct D as (Et & Hc & Sn & -> & P). unfold prog in P.
     destruct ctxf; destruct P as [G ->]; injection St as <- <- <-.
@@ -245,14 +238,18 @@ Proof.
       { rewrite (dels_snoc cur Hc1), <- !app_assoc, app_nil_r. reflexivity. }
       rewrite Ew. split_and!; auto; cbn [DInv]; split_and!; auto; unfold prog; auto.
     + split_and!; auto.
-      * apply sim_write_del; auto; repeat constructor; cbn; auto.
-      * cbn [DInv]. rewrite (proj1 (proj2 (proj2 (proj2 (write_frame x [WDelI cur]))))). split_and!; auto.
+      * apply sim_write_del; auto.
+        apply Forall_cons; [cbn; exists cur; auto|apply Forall_cons; [cbn; auto|constructor]].
+      * cbn [DInv]. rewrite (proj1 (proj2 (proj2 (proj2 (write_frame x [WDelH (h_id (c cur)); WDelI cur]))))). split_and!; auto.
         unfold prog. split; auto. destruct G as (G1 & G2 & G3).
-        destruct (write_disk x [WDelI cur]) as (W1 & W2 & _).
-        split_and!; intros n Hn Hl; rewrite ?W1, ?W2; cbn [fold_left apply1 set_disk d_hdr d_idx]; auto.
+        destruct (write_disk x [WDelH (h_id (c cur)); WDelI cur]) as (W1 & W2 & _).
+        split_and!; intros n Hn Hl; rewrite ?W1, ?W2; cbn [del2 fold_left apply1 set_disk d_hdr d_idx]; auto.
         -- destruct (N.eq_dec n cur) as [->|Hne]; [apply lookup_delete|].
            rewrite lookup_delete_ne by auto. apply G1; auto. lia.
         -- rewrite lookup_delete_ne by lia. apply G2; auto. lia.
+        -- destruct (N.eq_dec n cur) as [->|Hne]; [apply lookup_delete|].
+           rewrite lookup_delete_ne; [apply G3; auto; lia|].
+           intros Eid. apply c_inj in Eid; [congruence|exact (low_inr T to HT Hto Hlt _ Hc)|exact (low_inr T to HT Hto Hlt _ Hn)].
   - (* KPend *)
     destruct D as (Et & Hc & Sn & P). rewrite (sim_pend_del T to Hlt x v cur S Hv Hc) in St.
     injection St as <- <- <-. split_and!; auto. unfold k_next. destruct Hc as [Hc1 Hc2].
